@@ -122,13 +122,17 @@ def leaf(rnd, d, D, allow=("normal_scalar", "normal_vec", "normal_full", "laplac
     return Node(obj, f"(DQuad {ql(mu)} {qm(P.tolist())} {q(c)})", d, lo, hi, f"Normal({mu}, full {cov.tolist()})")
 
 
-def tree(rnd, d, D, T, depth, normalizable=False):
-    """Random wrapper nesting of the given dimension."""
-    if depth == 0 or rnd.random() < 0.3:
-        return leaf(rnd, d, D, normalizable=normalizable)
-    k = rnd.choice(["additive", "composite", "mixture", "logspace"] if not normalizable else ["mixture_leafs"])
+ALL_LEAVES = ("normal_scalar", "normal_vec", "normal_full", "laplace", "uniform", "std1d", "himmelblau")
+
+
+def tree(rnd, d, D, T, depth, normalizable=False, first=None, allow=ALL_LEAVES):
+    """Random wrapper nesting of the given dimension.  `first` forces the outermost wrapper, `allow` restricts the
+    leaf classes (used to cover every wrapper x leaf combination deterministically)."""
+    if first is None and (depth == 0 or rnd.random() < 0.3):
+        return leaf(rnd, d, D, allow=allow, normalizable=normalizable)
+    k = first or rnd.choice(["additive", "composite", "mixture", "logspace"] if not normalizable else ["mixture_leafs"])
     if k == "additive":
-        parts = [tree(rnd, d, D, T, depth - 1) for _ in range(rnd.randint(2, 3))]
+        parts = [tree(rnd, d, D, T, depth - 1, allow=allow) for _ in range(rnd.randint(2, 3))]
         cls = rnd.choice([D.BayesRule, D.AdditiveDistribution])
         obj = cls([p.obj for p in parts])
         term = parts[-1].term
@@ -141,7 +145,7 @@ def tree(rnd, d, D, T, depth, normalizable=False):
     if k == "composite" and d >= 2:
         cut = sorted(rnd.sample(range(1, d), rnd.randint(1, min(2, d - 1))))
         sizes = [b - a for a, b in zip([0] + cut, cut + [d])]
-        parts = [tree(rnd, n, D, T, depth - 1) for n in sizes]
+        parts = [tree(rnd, n, D, T, depth - 1, allow=allow) for n in sizes]
         obj = D.CompositeDistribution([p.obj for p in parts])
         term = parts[-1].term
         for p in reversed(parts[:-1]):
@@ -161,7 +165,7 @@ def tree(rnd, d, D, T, depth, normalizable=False):
         kinks = [sum((p.kinks[i] for p in parts), []) for i in range(d)]
         return Node(obj, term, d, [-4.0] * d, [4.0] * d, "Mixture[" + ", ".join(p.desc for p in parts) + f"; w={w}]", kinks)
     if k == "logspace":
-        inner = tree(rnd, d, D, T, depth - 1)
+        inner = tree(rnd, d, D, T, depth - 1, allow=allow)
         base = rnd.choice([10.0, 2.0, 3.0, 1.5, math.e])
         obj = T.TransformToLogSpace(inner.obj, base=base)
         # evaluation domain: m = base^x with x in inner's domain
@@ -169,7 +173,7 @@ def tree(rnd, d, D, T, depth, normalizable=False):
         hi = [base ** min(h, 3.0) for h in inner.hi]
         kinks = [[base ** kk for kk in ks] for ks in inner.kinks]
         return Node(obj, f"(DLog {q(base)} {inner.term})", d, lo, hi, f"LogSpace(base={base})[{inner.desc}]", kinks, True)
-    return leaf(rnd, d, D, normalizable=normalizable)
+    return leaf(rnd, d, D, allow=allow, normalizable=normalizable)
 
 
 def interior_point(rnd, node, bits=3):
@@ -287,3 +291,12 @@ def inplace_consistency(rnd, obj, xa, desc):
         out.append(("not-a-function-of-the-point", f"{desc}: after moving the evaluated array in place to {[float(v) for v in buf.flatten()]} misfit / gradient are "
                     f"{float(m_in)} / {list(g_in)}, a fresh array with the same values gives {float(m_fr)} / {list(g_fr)}"))
     return out
+
+
+COMBOS = [(w, l) for w in ("additive", "composite", "logspace") for l in ("normal_scalar", "normal_vec", "normal_full", "laplace", "uniform")]
+
+
+def combo_tree(rnd, k, D, T):
+    """the k-th wrapper x leaf combination (depth one), dimension 2"""
+    w, l = COMBOS[k % len(COMBOS)]
+    return tree(rnd, 2, D, T, 1, first=w, allow=(l,))
